@@ -2,6 +2,7 @@ package c14
 
 import (
 	"fmt"
+	"math"
 	"sort"
 	"strconv"
 	"strings"
@@ -35,14 +36,15 @@ type Program struct {
 }
 
 type gen struct {
-	ns        string
-	params    map[string]bool
-	data      map[string]interface{}
-	globals   map[string]interface{}
-	gtext     string
-	needEcho  bool
-	needOther bool // a second FILE in the same namespace defines .other
-	transl    *string
+	ns          string
+	params      map[string]bool
+	data        map[string]interface{}
+	globals     map[string]interface{}
+	gtext       string
+	needEcho    bool
+	needOther   bool // a second FILE in the same namespace defines .other
+	needSibling bool // a second FILE in a namespace that shares only the root segment defines .sib
+	transl      *string
 }
 
 func (g *gen) use(p string, v interface{}) {
@@ -260,6 +262,97 @@ var globalKinds = []globalKind{
 	{"bigfloat", 1e21, "", "1e+21"},
 }
 
+// numeric globals used under operators and inside collections
+type numGlobal struct {
+	name  string
+	value interface{} // int or float64
+	text  string      // ParseGlobals spelling
+	arith bool        // exact under +/- 10 in float64 and printed positionally
+}
+
+var numGlobals = []numGlobal{
+	{"int0", 0, "0", true}, {"int", 42, "42", true}, {"negint", -5, "-5", true}, {"negint1", -1, "-1", true},
+	{"bigint", 9007199254740991, "9007199254740991", false}, {"negbigint", -9007199254740991, "-9007199254740991", false},
+	{"float", 0.5, "0.5", true}, {"negfloat", -2.25, "-2.25", true}, {"wholefloat", 3.0, "3.0", true},
+	{"negwholefloat", -4.0, "-4.0", true}, {"zerofloat", 0.0, "0.0", true}, {"negzerofloat", math.Copysign(0, -1), "", true},
+	{"smallfloat", 0.000001, "0.000001", false}, {"negsmallfloat", -0.015625, "-0.015625", true},
+	{"bigfloat", 1e21, "", false}, {"negbigfloat", -1e21, "", false},
+}
+
+// jsNum is what JavaScript's String() gives for x (for the values used here).
+func jsNum(x float64) string {
+	switch {
+	case x == 0:
+		return "0"
+	case math.Abs(x) >= 1e21:
+		s := strconv.FormatFloat(x, 'e', -1, 64) // 1e+21
+		return strings.Replace(s, "e+0", "e+", 1)
+	case x == math.Trunc(x):
+		return strconv.FormatFloat(x, 'f', 0, 64)
+	}
+	return strconv.FormatFloat(x, 'f', -1, 64)
+}
+
+type numForm struct {
+	name  string
+	arith bool
+	build func(v float64) (frag, expect string)
+}
+
+var numForms = []numForm{
+	{"plain", false, func(v float64) (string, string) { return "{GLOB_K}", jsNum(v) }},
+	{"negated", false, func(v float64) (string, string) { return "{-GLOB_K}", jsNum(-v) }},
+	{"negated-twice", false, func(v float64) (string, string) { return "{-(-GLOB_K)}", jsNum(v) }},
+	{"minus-right", true, func(v float64) (string, string) { return "{10 - GLOB_K}", jsNum(10 - v) }},
+	{"minus-left", true, func(v float64) (string, string) { return "{GLOB_K - 10}", jsNum(v - 10) }},
+	{"plus-right", true, func(v float64) (string, string) { return "{10 + GLOB_K}", jsNum(10 + v) }},
+	{"minus-negated", true, func(v float64) (string, string) { return "{10 - -GLOB_K}", jsNum(10 + v) }},
+	{"times", true, func(v float64) (string, string) { return "{2 * GLOB_K}", jsNum(2 * v) }},
+	{"in-list", false, func(v float64) (string, string) {
+		return "{foreach $i in [GLOB_K, -GLOB_K]}{$i};{/foreach}", jsNum(v) + ";" + jsNum(-v) + ";"
+	}},
+	{"in-map", false, func(v float64) (string, string) {
+		return "{let $nm: ['a': GLOB_K, 'b': -GLOB_K]/}{$nm.a},{$nm.b}", jsNum(v) + "," + jsNum(-v)
+	}},
+	{"directive-arg", false, func(v float64) (string, string) { return "{'v' |verifArg:GLOB_K}", jsNum(v) }},
+	{"directive-arg-negated", false, func(v float64) (string, string) { return "{'v' |verifArg:-GLOB_K}", jsNum(-v) }},
+	{"comparison", true, func(v float64) (string, string) {
+		return "{if -GLOB_K < 100 and GLOB_K > -100}in{else}out{/if}", "in"
+	}},
+	{"param-value", false, func(v float64) (string, string) { return "{call .echo}{param p: -GLOB_K/}{/call}", jsNum(-v) }},
+}
+
+// BuildNumGlobal builds the program that uses a numeric global in one form.
+func BuildNumGlobal(id int, k numGlobal, f numForm, parsed bool, w wrapper) (*Program, bool) {
+	if f.arith && !k.arith {
+		return nil, false
+	}
+	g := &gen{ns: nsFor(id), params: map[string]bool{}, data: map[string]interface{}{}, globals: map[string]interface{}{}}
+	pos := "global-" + k.name + "-" + f.name
+	if parsed {
+		if k.text == "" {
+			return nil, false
+		}
+		g.gtext = "GLOB_K = " + k.text + "\n"
+		pos += "-parsed"
+	} else {
+		g.globals["GLOB_K"] = k.value
+	}
+	var v float64
+	switch x := k.value.(type) {
+	case int:
+		v = float64(x)
+	case float64:
+		v = x
+	}
+	frag, exp := f.build(v)
+	if strings.Contains(frag, ".echo") {
+		g.needEcho = true
+	}
+	body, exp := w.apply(frag, exp, g)
+	return assemble(id, g, pos, "global-"+kindClass(k.name), w.name, k.text, body, exp), true
+}
+
 // wrapper puts a fragment into a command context.
 type wrapper struct {
 	name  string
@@ -311,21 +404,43 @@ var wrappers = []wrapper{
 		g.needOther = true
 		return "{call .other/}" + f + "{call .other/}", "[other]" + e + "[other]"
 	}},
+	{"sibling-namespace", false, func(f, e string, g *gen) (string, string) {
+		g.needSibling = true
+		return "{call " + rootOf(g.ns) + ".zsib.deep.sib/}" + f, "[sib]" + e
+	}},
 	{"between-quotes", false, func(f, e string, g *gen) (string, string) {
 		return `a'"\` + f + `\"'b`, `a'"\` + e + `\"'b`
 	}},
 }
 
-// nsFor gives program id its namespace: one, two or four dot segments.
+// nsFor gives program id its namespace. The root segment is unique to the
+// program; the shapes cover one to four segments, a segment repeated, a later
+// segment that occurs earlier as a substring, and a segment that is a prefix
+// of a later one.
 func nsFor(id int) string {
-	switch id % 4 {
-	case 2:
+	switch id % 10 {
+	case 1:
 		return fmt.Sprintf("q%d.sub", id)
-	case 3:
+	case 2:
 		return fmt.Sprintf("q%d.a.b.c", id)
+	case 3:
+		return fmt.Sprintf("q%d.views.q%d", id, id) // first segment again
+	case 4:
+		return fmt.Sprintf("myapp%d.views.app", id) // "app" occurs inside "myapp<id>"
+	case 5:
+		return fmt.Sprintf("n%d.two.n", id) // "n" occurs at the very start
+	case 6:
+		return fmt.Sprintf("x%d.x%d.x%d", id, id, id) // all segments equal
+	case 7:
+		return fmt.Sprintf("ab%d.ab%dc.ab%dcd", id, id, id) // each segment a prefix of the next
+	case 8:
+		return fmt.Sprintf("shop%d.admin.shop%d.ad", id, id) // two later segments occur earlier
 	}
 	return fmt.Sprintf("q%d", id)
 }
+
+// rootOf is the first segment of a namespace.
+func rootOf(ns string) string { return strings.SplitN(ns, ".", 2)[0] }
 
 // Build assembles the Soy file of one program.
 func Build(id int, pos position, w wrapper, s string) (*Program, bool) {
@@ -363,6 +478,12 @@ func assemble(id int, g *gen, pos, class, wrap, s, body, exp string) *Program {
 		extra = append(extra, core.File{Name: g.ns + "-2.soy",
 			Text: "{namespace " + g.ns + "}\n\n/** */\n{template .other autoescape=\"false\"}[other]{/template}\n"})
 		tmpls = append(tmpls, g.ns+".other")
+	}
+	if g.needSibling {
+		sns := rootOf(g.ns) + ".zsib.deep"
+		extra = append(extra, core.File{Name: g.ns + "-sib.soy",
+			Text: "{namespace " + sns + "}\n\n/** */\n{template .sib autoescape=\"false\"}[sib]{/template}\n"})
+		tmpls = append(tmpls, sns+".sib")
 	}
 	sort.Strings(tmpls)
 	return &Program{ID: id, NS: g.ns, Pos: pos, Class: class, Wrap: wrap, S: s, Expect: exp,
